@@ -264,7 +264,8 @@ def _walk(d):
 
 SPEC_TOKENS = ["a", "a2", "-b", "_c", "2", "@", "=", "1.0.0", "1.2.3-rc.1", "*", "!", "."]
 NAME_RX = re.compile(r"^[A-Za-z0-9_-]+$")
-SEMVER_RX = re.compile(r"^(0|[1-9]\d*)\.(0|[1-9]\d*)\.(0|[1-9]\d*)(-[0-9A-Za-z.-]+)?(\+[0-9A-Za-z.-]+)?$")
+_PRE_ID = r"(?:0|[1-9]\d*|\d*[A-Za-z-][0-9A-Za-z-]*)"
+SEMVER_RX = re.compile(r"^(0|[1-9]\d*)\.(0|[1-9]\d*)\.(0|[1-9]\d*)(-%s(\.%s)*)?(\+[0-9A-Za-z-]+(\.[0-9A-Za-z-]+)*)?$" % (_PRE_ID, _PRE_ID))
 
 
 def spec_grammatical(s):
